@@ -398,6 +398,71 @@ class Gen:
         self.obs.append({"node": m, "clones": 1, "dis": False})
         self.count("motif_shared")
 
+    def motif_cutoff_reobserve(self):
+        """a chain whose tail is often cut off (function with many collisions), observed, unobserved and
+        observed again with and without writes in between"""
+        self.mk_var(); v = len(self.nodes) - 1
+        f = self.new_fn(1, m=7)
+        self.act(f"map f{f} n{v}")
+        a = self.add_node("map")
+        g = self.new_fn(1, m=2)
+        self.act(f"map f{g} n{a}")
+        b = self.add_node("map")
+        h = self.new_fn(1, m=7)
+        self.act(f"map f{h} n{b}")
+        c = self.add_node("map")
+        vi = self.nodes[v]["var"]
+        for _ in range(self.rng.randint(1, 2)):
+            self.act(f"observe n{c}")
+            self.obs.append({"node": c, "clones": 1, "dis": False})
+            oc = len(self.obs) - 1
+            self.act("stabilise")
+            for _ in range(self.rng.randint(1, 3)):
+                self.act(f"set v{vi} {self.rng.randint(0, 4)}")
+                self.act("stabilise")
+            if oc >= 2:
+                self.act(f"dropobs o{oc}"); self.obs[oc]["clones"] -= 1
+            else:
+                self.act(f"disallow o{oc}"); self.obs[oc]["dis"] = True
+            self.act("stabilise")
+            if self.rng.random() < 0.4:
+                self.act(f"set v{vi} {self.rng.randint(0, 4)}")
+        self.act(f"observe n{c}")
+        self.obs.append({"node": c, "clones": 1, "dis": False})
+        self.act("stabilise")
+        self.count("motif_cutoff_reobserve")
+
+    def motif_two_binds(self):
+        """two binds that may both return (a dependant of) one shared, otherwise unobserved node"""
+        self.mk_var(); y = len(self.nodes) - 1
+        self.mk_var(); l1 = len(self.nodes) - 1
+        self.mk_var(); l2 = len(self.nodes) - 1
+        f = self.new_fn(1, m=7)
+        self.act(f"map f{f} n{y}")
+        n = self.add_node("map")
+        other = self.pick(below=n)
+        for lhs in (l1, l2):
+            g = self.new_fn(1, m=7)
+            b = self.nbody; self.nbody += 1
+            alts = [f"ret n{n}", self.rng.choice([f"ret n{other}", f"map f{g} n{n} ; ret %0", "lhsconst ; ret %0"])]
+            self.rng.shuffle(alts)
+            self.defs.append(f"body b{b} 2 " + " | ".join(alts))
+            self.bodies_info.append(b)
+            self.act(f"bind b{b} n{lhs}")
+            m = self.add_node("bind")
+            self.act(f"observe n{m}")
+            self.obs.append({"node": m, "clones": 1, "dis": False})
+        self.act("stabilise")
+        for _ in range(self.rng.randint(1, 3)):
+            acts = [f"set v{self.nodes[y]['var']} {self.rng.randint(0, 4)}",
+                    f"set v{self.nodes[l1]['var']} {self.rng.randint(0, 3)}",
+                    f"set v{self.nodes[l2]['var']} {self.rng.randint(0, 3)}"]
+            self.rng.shuffle(acts)
+            for a in acts:
+                self.act(a)
+            self.act("stabilise")
+        self.count("motif_two_binds")
+
     def motif_mapref(self):
         """map_ref projections of a pair-valued var, consumers observed and unobserved while the source moves"""
         self.mk_var(pair=True); src = len(self.nodes) - 1
@@ -461,12 +526,16 @@ class Gen:
             self.mk_var()
         if self.profile in ("bind", "general", "static", "expert", "varw"):
             r = rng.random()
-            if r < 0.25 and self.profile != "static":
+            if r < 0.15 and self.profile != "static":
+                self.motif_two_binds()
+            elif r < 0.3 and self.profile != "static":
                 self.motif_heights()
             elif r < 0.5 and self.profile != "static":
                 self.motif_shared()
-            elif r < 0.75:
+            elif r < 0.7:
                 self.motif_mapref()
+            elif r < 0.85:
+                self.motif_cutoff_reobserve()
         weights = {
             "general": dict(var=2, const=1, map=10, fold=3, mapref=3, mapold=3, zip=2, dependon=2, bind=6,
                             cutoff=4, observe=8, obs=6, sub=5, varw=14, stab=12),
@@ -519,7 +588,15 @@ class Gen:
                 self.mk_expert()
             elif op == "driver":
                 if self.experts:
-                    self.mk_driver(self.rng.choice(self.experts))
+                    e = self.rng.choice(self.experts)
+                    if self.rng.random() < 0.4:
+                        # a dependency added from outside, possibly while the node is observed
+                        cands = [k for k in self.vnodes() if k < e]
+                        if cands:
+                            self.act(f"adddep n{e} n{self.rng.choice(cands)} {self.rng.choice(['cb', 'nocb'])}")
+                            self.count("adddep_toplevel")
+                    else:
+                        self.mk_driver(e)
             elif op == "stab":
                 self.act("stabilise")
                 self.count("stabilise")
